@@ -62,6 +62,9 @@ type Entry struct {
 	SQL     string // as sent by the code under test
 	Args    []any
 	Stmt    *Stmt // nil when the statement was not recognised
+	// Target is the table the statement reads or changes, resolved against the catalogue at the time of the
+	// statement: the local table for a SELECT from / INSERT into a Distributed table, the unqualified name otherwise.
+	Target  string
 	Applied bool  // the effect was applied (Exec) / the result was produced (Query)
 	Changed bool  // Exec only: the canonical state differs from before
 	Err     error // what the call returned
@@ -151,6 +154,13 @@ func (p *Proc) do(db string, isQuery bool, q string, args []any) (*Entry, []stri
 		return e, nil, nil, nil
 	}
 	e.Stmt = st
+	if st.Kind == "select" {
+		if t, terr := p.St.ReadTarget(db, st.Name); terr == nil {
+			e.Target = t.Name
+		}
+	} else if !st.IsRead() {
+		e.Target = p.St.WriteTarget(db, st)
+	}
 	f, faulted := p.faultAt(e.Index)
 	if faulted && (f.Pos == ErrBefore || f.Pos == KillBefore) {
 		if f.Pos == KillBefore {
@@ -162,19 +172,17 @@ func (p *Proc) do(db string, isQuery bool, q string, args []any) (*Entry, []stri
 	var cols, types []string
 	var rows [][]string
 	if isQuery {
-		switch st.Kind {
-		case "select_max_ver", "select_setting", "select_count", "show_tables", "show_create_database":
-		default:
+		if !st.IsRead() {
 			e.Err = p.harness(unknown("Query() with a %s statement", st.Kind))
 			return e, nil, nil, nil
 		}
 		cols, types, rows, err = p.St.Query(db, st)
 	} else {
-		switch st.Kind {
-		case "select_max_ver", "select_setting", "select_count", "show_tables", "show_create_database":
+		if st.IsRead() {
 			e.Err = p.harness(unknown("Exec() with a %s statement", st.Kind))
 			return e, nil, nil, nil
 		}
+
 		var before string
 		if p.TrackChange {
 			before = p.St.Canon()
@@ -307,6 +315,27 @@ func (r *Rows) Scan(dest ...any) error {
 			}
 			v, _ := strconv.ParseUint(row[i], 10, 64)
 			*p = v
+		case "UInt32", "UInt16", "UInt8":
+			v, _ := strconv.ParseUint(row[i], 10, 64)
+			switch p := d.(type) {
+			case *uint32:
+				if r.types[i] != "UInt32" {
+					return fmt.Errorf("clickhouse: converting %s to %T is unsupported", r.types[i], d)
+				}
+				*p = uint32(v)
+			case *uint16:
+				if r.types[i] != "UInt16" {
+					return fmt.Errorf("clickhouse: converting %s to %T is unsupported", r.types[i], d)
+				}
+				*p = uint16(v)
+			case *uint8:
+				if r.types[i] != "UInt8" {
+					return fmt.Errorf("clickhouse: converting %s to %T is unsupported", r.types[i], d)
+				}
+				*p = uint8(v)
+			default:
+				return fmt.Errorf("clickhouse: converting %s to %T is unsupported", r.types[i], d)
+			}
 		case "String":
 			p, ok := d.(*string)
 			if !ok {
